@@ -59,6 +59,7 @@ type FuncContract struct {
 	OwnReads   []string   // heap key prefixes: plain loads from these keys must read objects allocated by this activation
 	AtomicOnly []string   // captured variables of a goroutine body that may only be accessed through sync/atomic: no plain load or store may touch their cell
 	Guards     []Guard    // lock discipline: plain accesses to these keys need the condition
+	MapKeys    []Guard    // domain refinement: every key stored into a map with this domain key satisfies Cond ($key)
 	PointSets  []PointSet
 	OwnWrites  []string        // heap key prefixes: stores into these keys must target objects allocated by this activation
 	Calls      []string        // parameters holding functions the callee may invoke: their write sets are added at call sites
@@ -143,7 +144,7 @@ func newContractSet() *ContractSet {
 	return &ContractSet{Funcs: map[string]*FuncContract{}, Specs: map[string]*SpecFunc{}, Axioms: map[string]*Axiom{}, Ghosts: map[string]*GhostVar{}}
 }
 
-var keywordRe = regexp.MustCompile(`^(func|property|requires|ensures|modifies|loop|assert|trusted|inline|nopanic|safety|spec|axiom|lemma|invariant|ghostset|ghost|use|reveal|calls|ownwrites|ownreads|atomiconly|guarded|terminates|decreases|package)\b`)
+var keywordRe = regexp.MustCompile(`^(func|property|requires|ensures|modifies|loop|assert|trusted|inline|nopanic|safety|spec|axiom|lemma|invariant|ghostset|ghost|use|reveal|calls|ownwrites|ownreads|atomiconly|guarded|mapkeys|terminates|decreases|package)\b`)
 var labelRe = regexp.MustCompile(`^\[([A-Za-z0-9_.<>=%+\-]+)\]\s*(.*)$`)
 
 func canonFuncName(pkg, decl string) string {
@@ -394,6 +395,20 @@ func (cs *ContractSet) parseFile(path string, defaultPkg string) error {
 				return err
 			}
 			cur.Guards = append(cur.Guards, Guard{Prefix: m[1], Cond: c})
+		case "mapkeys":
+			// mapkeys <MD: key prefix> by <expr over $key>
+			if cur == nil {
+				return fmt.Errorf("%s:%d: mapkeys outside func", path, it.line)
+			}
+			m := regexp.MustCompile(`^(\S+)\s+by\s+(.*)$`).FindStringSubmatch(it.text)
+			if m == nil {
+				return fmt.Errorf("%s:%d: mapkeys <key prefix> by <expr>", path, it.line)
+			}
+			c, err := mkClause(m[2], it.line)
+			if err != nil {
+				return err
+			}
+			cur.MapKeys = append(cur.MapKeys, Guard{Prefix: m[1], Cond: c})
 		case "atomiconly":
 			if cur == nil {
 				return fmt.Errorf("%s:%d: atomiconly outside func", path, it.line)
